@@ -55,8 +55,10 @@ class Report:
     # ---- finishing
     def finish(self, units):
         from .frontend import AnalysisBroken
+        failing = {v['rule'] for v in self.violations}
         for rid, r in self.rules.items():
-            if r['instances'] < r['min']:
+            # a rule that reports a violation is not vacuous: the vacuity guard protects passes only
+            if r['instances'] < r['min'] and rid not in failing:
                 raise AnalysisBroken('rule %s matched %d instances, fewer than the %d confirmed on the pinned tree (vacuity guard)' % (rid, r['instances'], r['min']))
         known = []
         kf_path = os.path.join(VERIF, 'known_findings.json')
